@@ -37,8 +37,8 @@ def plan(tier):
     return {
         "sweeps": sweeps,
         "exhaustive": f"all frame sequences of length 1..{L} over the 12-symbol relative alphabet from each expected-number state 0..7, one frame per read",
-        "random": [("long", {"n": 20}, 1)],
-        "runs": 800 if tier == "quick" else None,
+        "random": [("long", {"n": 20}, 1), ("link", {}, 1)],
+        "runs": 1600 if tier == "quick" else None,
         "budget_s": 60 if tier == "quick" else 900,
         "batch": 10,
     }
@@ -210,6 +210,12 @@ def run_long(params, tape):
 
 
 def run(scenario, params, tape, detail=False):
+    if scenario == "link":
+        # the same receive oracle on a live link (engine E1): host DATA frames in flight, reference NCP with windows 1..3,
+        # line faults, several frames per read
+        from .. import e1
+
+        return e1.run(params, tape, detail=detail)
     res = run_seq(params, tape) if scenario == "seq" else run_long(params, tape)
     res["digest"] = hashlib.sha256(repr((sorted(res["sigs"]), res["viol"])).encode()).hexdigest()[:16]
     if detail:
